@@ -215,6 +215,22 @@ def gen_cases(rng, tier):
                         continue
                     variants.append({"call_every": c, "patience": pat, "early": early})
         cases.append({"mode": "vloss", "seg": base, "variants": variants})
+        if bi % 2 == 0:
+            # a NaN criterion on FINITE parameters (the validation loss is singular on one of its own batches),
+            # followed by lower finite criteria: a NaN is never an improvement and never becomes the minimum
+            vn = copy.deepcopy(base)
+            vn["val"]["vkind"] = "decreasing+nan"
+            nflat = sum(sp.leaf_sizes(vn["params"]))
+            vn["loss"] = {"terms": [["dyn_loss", [["1", [i], 0] for i in range(nflat)]]], "mark": None,
+                          "grad_fault": []}
+            zf = sp.n_features(vn["val"]["gens"]) - 1
+            vn["val"]["loss"] = {"terms": [["dyn_loss", [["1", [i], 0] for i in range(nflat)] + [["1", [], zf]]]],
+                                 "mark": None, "grad_fault": []}
+            vn["val"]["gens"]["data"]["nt"] = max(vn["val"]["gens"]["data"]["nt"], 3 * vn["val"]["gens"]["data"]["b"])
+            cases.append({"mode": "vloss", "seg": vn, "vnan": rng.choice([1, 2]),
+                          "variants": [{"call_every": c, "patience": pat, "early": early}
+                                       for c in (1, 2) for pat in (1, 2, 3) for early in (True, False)
+                                       if tier != "quick" or rng.random() < 0.6]})
         if bi % 3 == 0:
             plain = copy.deepcopy(base)
             plain["jit"] = False
@@ -278,8 +294,12 @@ def shrink_candidates(case):
                 yield {**case, "seg": {**seg, "n": n}}
 
 
-def _segments(case):
+def _segments(case, vbatches=None):
     seg = case["seg"]
+    if case.get("vnan") is not None and vbatches is not None:
+        # the validation loss is NaN on every own batch that contains the first point of own batch `vnan`
+        seg = copy.deepcopy(seg)
+        seg["val"]["loss"]["mark"] = sp.first_point(vbatches[int(case["vnan"])])
     if case["mode"] == "scripted":
         for s in case["scripts"]:
             yield {**seg, "val": {**seg["val"], "script": decode(s)}}
@@ -325,7 +345,7 @@ def run_impl(case):
     if case["mode"] == "vloss":
         vd, vp, vo = sp.build_generators(seg["val"]["gens"])
         out["vbatches"], _ = sp.replay(vd, vp, vo, int(seg["n"]))
-        out["uniq"] = [sp.run_segment(s)[0] for s in _segments(case)]
+        out["uniq"] = [sp.run_segment(s)[0] for s in _segments(case, out["vbatches"])]
         out["rep"] = list(range(len(out["uniq"])))
         out["index"] = list(range(len(out["uniq"])))
         return out
@@ -351,7 +371,7 @@ def lean_request(case, obs):
             reqs.append({"op": "c19", "prog": sp.lean_prog(rs, rec["batches"], rec["gens"],
                                                              vbatches=rec.get("vbatches")), "obs": o})
         return reqs
-    segs = list(_segments(case))
+    segs = list(_segments(case, obs.get("vbatches")))
     reqs = []
     for o, i in zip(obs["uniq"], obs["rep"]):
         reqs.append({"op": "c19", "prog": sp.lean_prog(segs[i], obs["batches"], obs["gens"],
